@@ -13,8 +13,9 @@ CLAUSES = {
     "C01.mosaic": 2000, "C01.chain": 500, "C01.pedigree": 2000, "C01.depth": 300, "C01.founder.side": 300, "C01.founder.switch": 300,
     "C01.meta.count": 300, "C01.meta.names": 300, "C01.meta.family": 300, "C01.meta.counters": 300,
     "C01.meta.vrnt": 300, "C01.meta.parent_unchanged": 300, "C01.meta.args_unchanged": 300, "C01.dh.homozygous": 100,
+    "C01.meta.results_stable": 300,
 }
-HOOKS_REQUIRED = ["mat_meiosis calls"]
+HOOKS_REQUIRED = ["mat_meiosis calls", "breeding cycles chained on one protocol object"]
 RULE = ("seeded class-based mate() calls: 7 protocols x founders 1-9 taxa x 1-48 markers x 1-4 chromosomes; cross tables with "
         "selfs/repeated parents/single cross; scalar and per-cross array nmating/nprogeny (incl. 1 and per-cross 0); nself 0-4; "
         "xoprob all-zero/all-half/mixed exact 0 and 0.5/random/Haldane; allele codes unique-per-founder-haplotype/{0,1}/"
@@ -296,8 +297,24 @@ def one_case(ctx, c):
     proto = proto_class(name)(progeny_counter=k["pc"], family_counter=k["fc"], rng=k["rng"])
     out = check_call(ctx, name, k["prefix"], proto, pg, k["xc"], k["nmating"], k["nprogeny"], k["nself"], k["codes"], icls, coords, k["tot"])
     if out is not None and g.random() < 0.3 and k["tot"] > 0:
-        # counter continuity: a second call on the same protocol object
-        check_call(ctx, name, k["prefix"], proto, pg, k["xc"], k["nmating"], k["nprogeny"], k["nself"], k["codes"], icls + "/second call", coords, k["tot"])
+        # counter continuity and ownership of results: later calls on the same long-lived protocol object (same shapes, then
+        # the progeny as the next cycle's parents) must leave the progeny handed out earlier exactly as they were
+        held = [(out, out.mat.copy(), pop.snapshot(out, pop.TAXA_FIELDS), pop.snapshot(out, pop.VRNT_FIELDS), "first call")]
+        ctx.check("C01.meta.results_stable", not numpy.shares_memory(out.mat, pg.mat), name + ".mate",
+                  "progeny genotypes share no memory with the parents' genotypes", icls, coords=coords)
+        out2 = check_call(ctx, name, k["prefix"], proto, pg, k["xc"], k["nmating"], k["nprogeny"], k["nself"], k["codes"], icls + "/second call", coords, k["tot"])
+        if out2 is not None:
+            held.append((out2, out2.mat.copy(), pop.snapshot(out2, pop.TAXA_FIELDS), pop.snapshot(out2, pop.VRNT_FIELDS), "second call"))
+            if out2.ntaxa > int(numpy.max(k["xc"])) and g.random() < 0.6:
+                # next breeding cycle: the progeny are the parents (same cross table, same counts -> same output shape)
+                ctx.hook("breeding cycles chained on one protocol object")
+                check_call(ctx, name, k["prefix"], proto, out2, k["xc"], k["nmating"], k["nprogeny"], k["nself"], "progeny of an earlier call", icls + "/next cycle on progeny", coords, k["tot"])
+        for o_, m0, t0, v0, tag in held:
+            same = numpy.array_equal(o_.mat, m0) and all(pop.same(getattr(o_, f, None), t0[f]) for f in pop.TAXA_FIELDS) and \
+                all(pop.same(getattr(o_, f, None), v0[f]) for f in pop.VRNT_FIELDS)
+            ctx.check("C01.meta.results_stable", same, name + ".mate", "progeny returned by an earlier call are not changed by later calls on the same protocol object",
+                      icls, what="%s: the progeny matrix returned by the %s changed after a later mate() call on the same protocol object" % (name, tag),
+                      witness={"protocol": name, "xconfig": k["xc"], "nmating": k["nmating"], "nprogeny": k["nprogeny"], "nself": k["nself"], "which": tag}, coords=coords)
     if isinstance(k["rng"], ConstUniform):
         ctx.hook("constant uniform() interceptions", k["rng"].ncalls)
 
